@@ -427,6 +427,10 @@ def run(c, chk):
         sub = report.SubCheck(chk, 'R12.14', 'C06', only=('R6.5',))
         _c06h.run(c, sub)
         sub.done('section hand-over')
+        # R12.15: skipping an undeclared item writes nothing outside the parser's own variables: what the parser keeps about the
+        # item (its name, say) in a local array stays inside that array whatever the length of the name (rule R2.19 of C02)
+        from . import c02 as _c02l
+        _c02l.local_arrays_in_bounds(c, _c08g.chk_proxy(chk, {'R2.19': 'R12.15'}), rid='R2.19', only_funcs={'cfg_parse_internal'})
 
 
 def why_class(why):
